@@ -81,6 +81,9 @@ def main (lines : Array String) : IO Unit := do
       name := some nm; progs := []; st := none; mism := []; nsetup := 0
     | "setup" :: rest => nsetup := rest.length
     | "thread" :: rest => progs := progs ++ [(splitSemi rest).filterMap parseCall]
+    -- dispatcher variant of the harness: taking the dispatcher's listenerMutex (map look-up / creation of the
+    -- event's list) is not a step of the list model; that every call takes it exactly once is checked by the suite
+    | ["step", _, "map", _] => pure ()
     | ["step", t, tag, _] =>
       let s0 := st.getD (mkInit progs nsetup)
       let t := nat! t
